@@ -125,6 +125,12 @@ def eval_rewrite(case) -> Verdict:
                     return v
         for k, real in LOOKALIKE.items():
             srcs[1]["main"] = srcs[1]["main"].replace(k, real)
+    for d in (d1, d2):
+        # a start delimiter ending in '-' or an end delimiter starting with '-' cannot be told from the whitespace
+        # control hyphen that may stand in that very place: such delimiters collide with the syntax itself
+        if any(x.endswith("-") for x in d[0::2]) or any(x.startswith("-") for x in d[1::2]):
+            v.labels.append("collision")
+            return v
     datas = [gd.decode(x) for x in case["datas"]]
     results = []
     for d, m in zip((d1, d2), srcs):
@@ -401,7 +407,7 @@ def gen_delims(r, comments: bool) -> list:
             for i in range(n):
                 if i not in keep:
                     out[i] = DEFAULT6[i]
-        if len(set(out)) == n and all(d.strip("-") for d in out):
+        if len(set(out)) == n and not any(x.endswith("-") for x in out[0::2]) and not any(x.startswith("-") for x in out[1::2]):
             return out
 
 
@@ -567,6 +573,6 @@ def finish_kwargs(ctx: core.Ctx, tier: str) -> dict:
         ),
         "assumptions": [
             "non-colliding is decided by an occurrence scan of the final source, which also rejects delimiter strings that are substrings of one another",
-            "delimiters consisting only of '-' are not generated (they are indistinguishable from whitespace control)",
+            "start delimiters ending in '-' and end delimiters starting with '-' count as colliding (the hyphen there is whitespace control)",
         ],
     }
